@@ -27,8 +27,8 @@ P_StopCompletes(o) == /\ (o.specStopped.L => o.atEnd.L.closed) /\ (o.specStopped
 \* ... and listeners, pending attempts and the active connection are shut down by then
 P_NothingLeft(o) == \A i \in 1..Len(o.snaps) :
     LET s == o.snaps[i] IN
-    /\ (s.L.closed => (s.listeners.L = 0 /\ s.pendingAttempts.L = 0 /\ s.selectedL = <<>>))
-    /\ (s.F.closed => (s.listeners.F = 0 /\ s.pendingAttempts.F = 0 /\ s.selectedF = <<>>))
+    /\ (s.L.closed => (s.listeners.L = 0 /\ s.pendingAttempts.L = 0 /\ s.selectedL = <<>> /\ s.openDialled.L = 0))
+    /\ (s.F.closed => (s.listeners.F = 0 /\ s.pendingAttempts.F = 0 /\ s.selectedF = <<>> /\ s.openDialled.F = 0))
 \* an incapable peer is reported, not awaited
 P_OldPeerReported(o) == o.oldpeer.ok /\ o.oldpeer.closed
 P_NoInternal(o) == o.internal = <<>>
